@@ -3,7 +3,8 @@
    `get vf false` is the faithful model of the (repaired) code; `vf` (the virtual sensor functions) is universally
    quantified; sensor_valid_statuses / sensor_status_width are regenerated from the source on every run. *)
 From Coq Require Import ZArith QArith List Bool String.
-From KV Require Import Base.Sx Base.Str Gen.Generated Model.Interp Model.SensorCache Proofs.InterpP Proofs.SensorCacheP.
+From KV Require Import Base.Sx Base.Str Gen.Generated Model.Interp Model.SensorCache Model.SensorWild
+  Proofs.InterpP Proofs.SensorCacheP Proofs.SensorWildP.
 Import ListNotations.
 Open Scope Q_scope.
 
@@ -171,3 +172,63 @@ Theorem C12_props_kwargs_win : forall name pm kw,
   (forall i, p_init kw = Some i -> p_init p = Some i).
 Proof. exact get_props_kwargs_win. Qed.
 Print Assumptions C12_props_kwargs_win.
+
+(* ---- wildcard property merge (which property overrides apply to WHICH sensor) ---- *)
+
+(* The shape of the wildcard test in SensorCache._get_props, regenerated from the source at every run: keys containing
+   "*" are split at "*", the literal parts are regex-escaped and joined by ".*", and the pattern is anchored at the
+   start AND at the end of the sensor name; merge order = name entry, wildcard entries, keyword arguments. *)
+Theorem C12_wildcard_regex_shape :
+  sensor_wild_char = "*"%string /\ sensor_wild_join = ".*"%string /\ sensor_wild_escape = true /\
+  sensor_wild_anchor_start = true /\ sensor_wild_anchor_end = true /\
+  sensor_props_merge_order = ["name"; "wildcards"; "kwargs"]%string.
+Proof. exact wild_regex_shape. Qed.
+Print Assumptions C12_wildcard_regex_shape.
+
+(* A property-map entry applies to a sensor iff its key contains a star and the WHOLE sensor name is the literal
+   parts of the key (key.split("*")), in order, separated by arbitrary (possibly empty) gaps. *)
+Theorem C12_wildcard_whole_name : forall k name,
+  key_matches k name = true <->
+  In star (list_ascii_of_string k) /\
+  wild_spec (split_star (list_ascii_of_string k)) (list_ascii_of_string name).
+Proof. exact key_matches_spec. Qed.
+Print Assumptions C12_wildcard_whole_name.
+
+(* Hence a matching name starts with the first literal part, ENDS with the last literal part and is at least as long
+   as the literal parts together: a name that merely starts with / contains something the key matches is not
+   affected by the entry (e.g. "*wind_speed" applies to "asc_wind_speed" but not to "asc_wind_speed_rate"). *)
+Theorem C12_wildcard_anchored : forall k name, key_matches k name = true ->
+  let parts := split_star (list_ascii_of_string k) in
+  (exists r, list_ascii_of_string name = List.hd [] parts ++ r)%list /\
+  (exists l, list_ascii_of_string name = l ++ List.last parts [])%list /\
+  (List.length (List.concat parts) <= String.length name)%nat.
+Proof. exact key_matches_anchored. Qed.
+Print Assumptions C12_wildcard_anchored.
+
+Theorem C12_wildcard_examples :
+  key_matches "*wind_speed" "asc_wind_speed" = true /\
+  key_matches "*wind_speed" "asc_wind_speed_rate" = false /\
+  key_matches "*noise_diode" "m000_dig_noise_diode" = true /\
+  key_matches "*noise_diode" "m000_dig_noise_diode_power" = false /\
+  key_matches "a*x" "ba/x" = false /\
+  key_matches "a.*" "a/x" = false /\
+  key_matches "a/x" "a/x" = false /\
+  key_matches "*" "" = true /\
+  key_matches "a**x" "ax" = true.
+Proof. exact key_matches_examples. Qed.
+Print Assumptions C12_wildcard_examples.
+
+(* Precedence, per property (time_offset, categorical, initial_value): the keyword argument, else the LAST entry in
+   dict order whose wildcard key matches the sensor and which sets the property, else the name-specific entry.
+   Entries whose key does not match the whole name have no influence. *)
+Theorem C12_props_precedence : forall name pm kw,
+  let p := fst (get_props name pm kw) in
+  p_off p = effective p_off name pm kw /\ p_cat p = effective p_cat name pm kw /\ p_init p = effective p_init name pm kw.
+Proof. exact get_props_precedence. Qed.
+Print Assumptions C12_props_precedence.
+
+Theorem C12_props_nonmatching_irrelevant : forall name pm1 k v pm2 base,
+  key_matches k name = false ->
+  merge_wild name (pm1 ++ (k, v) :: pm2) base = merge_wild name (pm1 ++ pm2) base.
+Proof. exact merge_wild_irrelevant. Qed.
+Print Assumptions C12_props_nonmatching_irrelevant.
